@@ -3,6 +3,7 @@ import GrassProofs.Lemmas.SelSem
 import GrassProofs.Lemmas.SelWalk
 import GrassProofs.Lemmas.SelPseudo
 import GrassProofs.Lemmas.SelParse
+import GrassProofs.Lemmas.SelParsePseudo
 /-
   C11 — Selector functions are sound with respect to element matching.
 
@@ -22,7 +23,13 @@ import GrassProofs.Lemmas.SelParse
     `matches | is | any | where` are modelled (`superPseudo`) and proved sound together with the
     compound / complex / list levels by induction on the fuel (`C11_full_proved`); the arms
     `has | host | host-context`, `slotted`, `current`, `nth-child | nth-last-child (.. of S)` are
-    outside the modelled alphabet (the model's parser answers `unsupported` for them).
+    outside the modelled alphabet (the model's parser answers `unsupported` for them);
+  * round 3: attribute selectors with all six operators, modifiers and quoted values have the CSS
+    matching semantics (`attrValMatch`), are compared by equality like grass's `Attribute::eq`
+    (`C11_attrEnc_injective`, `C11_attr_super_iff_eq`) and are covered by every soundness theorem
+    above (they quantify over all `Simple`); pseudos with a non-selector argument
+    (`:nth-child(2n+1)`, `:lang(en)`, `::part(x)`) are opaque `.pclass` / `.pelem` names `name(arg)`
+    — an opaque flag of the element — and covered likewise.
 -/
 namespace Grass.Selector
 
@@ -181,6 +188,97 @@ example : unifyCompound [.cls ['x'], .pclass ['h']] [.type ['a'], .pelem ['b']]
 example : unifyCompound [.id ['i']] [.type ['a'], .id ['j']] = none := by decide +kernel
 example : unifyCompound [.type ['b']] [.type ['a']] = none := by decide +kernel
 
+/-! ### attribute selectors (attribute.rs): operators, modifier, equality -/
+
+/-- The encoding of grass's `Attribute{value, modifier, op}` in one name is injective: equality of
+    the model's `.attr n v` is `Attribute::eq` (attribute.rs:23 — attr, value, modifier, op). -/
+theorem C11_attrEnc_injective (val val' : Name) (md md' op op' : Option Char)
+    (hv : wfAttrVal val) (hv' : wfAttrVal val')
+    (hm : ∀ m, md = some m → m.isAlpha = true) (hm' : ∀ m, md' = some m → m.isAlpha = true)
+    (ho : ∀ o, op = some o → (attrOpOfChar o).isSome = true) (ho' : ∀ o, op' = some o → (attrOpOfChar o).isSome = true)
+    (h : attrEnc val md op = attrEnc val' md' op') : val = val' ∧ md = md' ∧ op = op' := by
+  obtain ⟨a1, a2, a3⟩ := attrEnc_decode val md op hv hm
+  obtain ⟨b1, b2, b3⟩ := attrEnc_decode val' md' op' hv' hm'
+  rw [h] at a1 a2 a3
+  refine ⟨a1.symm.trans b1, ?_, ?_⟩
+  · have := a2.symm.trans b2
+    cases md <;> cases md' <;> simp_all
+  · have h3 := a3.symm.trans b3
+    cases op with
+    | none =>
+      cases op' with
+      | none => rfl
+      | some o' =>
+        exfalso
+        rcases attrOpChar_cases (ho' o' rfl) with e | e | e | e | e <;> subst e <;> simp [attrOpOfChar] at h3
+    | some o =>
+      cases op' with
+      | none =>
+        exfalso
+        rcases attrOpChar_cases (ho o rfl) with e | e | e | e | e <;> subst e <;> simp [attrOpOfChar] at h3
+      | some o' =>
+        rcases attrOpChar_cases (ho o rfl) with e | e | e | e | e <;>
+          rcases attrOpChar_cases (ho' o' rfl) with e' | e' | e' | e' | e' <;>
+          subst e <;> subst e' <;> first | rfl | (simp [attrOpOfChar] at h3)
+
+/-- is-superselector treats attribute selectors by equality (simple.rs:359 with `Attribute::eq`):
+    between two attribute selectors the answer is `true` exactly when name, value, modifier and
+    operator coincide — in particular `[t^=v]` is *not* reported a superselector of `[t=v]`
+    (a conservative `false`; soundness is `C11_isSuperCompound_sound`, which covers every operator). -/
+theorem C11_attr_super_iff_eq (n n' : Name) (v v' : Option Name) :
+    superCompound0 [.attr n v] [.attr n' v'] = true ↔ (n = n' ∧ v = v') := by
+  simp [superCompound0, simpleSuperOfCompound]
+
+/-- the semantics of the operators is the CSS one: whatever satisfies `[t=v]` satisfies `[t~=v]`
+    (for a `v` that is one word), `[t|=v]`, `[t^=v]`, `[t$=v]`, `[t*=v]` (non-empty `v`) — so
+    grass's `false` between them is only conservative, never needed for soundness. -/
+theorem C11_attrOp_eq_refines (op : AttrOp) (a b : Name) (hne : a ≠ []) (hws : a.any isWsC = false)
+    (h : attrOpMatch .eq a b = true) : attrOpMatch op a b = true := by
+  have e : a = b := by simpa [attrOpMatch] using h
+  subst e
+  have hw : ∀ (l : Name), l.any isWsC = false → wordsOf l = [l] := by
+    intro l
+    induction l with
+    | nil => intro _; rfl
+    | cons c cs ih =>
+      intro hl
+      simp only [List.any_cons, Bool.or_eq_false_iff] at hl
+      simp [wordsOf, ih hl.2, hl.1]
+  have hempty : a.isEmpty = false := by cases a <;> simp_all
+  cases op with
+  | eq => exact h
+  | incl => simp [attrOpMatch, hempty, hws, hw a hws]
+  | dash => simp [attrOpMatch]
+  | pre => simp [attrOpMatch, hempty]
+  | suf => simp [attrOpMatch, hempty]
+  | sub =>
+    cases a with
+    | nil => exact absurd rfl hne
+    | cons c cs => simp [attrOpMatch, isInfixOfC]
+
+private def elT (v : String) : Ctx :=
+  ⟨⟨{ type := ['a'], id := none, classes := [], attrs := [(['t'], v.toList)], flags := [], pe := none }, []⟩, []⟩
+
+-- the operators on concrete elements (attribute `t` = …)
+example : mSimple (.attr ['t'] (some (attrEnc ['v'] none (some '^')))) (elT "vx") = true ∧
+    mSimple (.attr ['t'] (some (attrEnc ['v'] none (some '^')))) (elT "xv") = false ∧
+    mSimple (.attr ['t'] (some (attrEnc ['v'] none (some '$')))) (elT "xv") = true ∧
+    mSimple (.attr ['t'] (some (attrEnc ['v'] none (some '*')))) (elT "xvx") = true ∧
+    mSimple (.attr ['t'] (some (attrEnc ['v'] none (some '*')))) (elT "xx") = false ∧
+    mSimple (.attr ['t'] (some (attrEnc ['v'] none (some '~')))) (elT "x v y") = true ∧
+    mSimple (.attr ['t'] (some (attrEnc ['v'] none (some '~')))) (elT "xv y") = false ∧
+    mSimple (.attr ['t'] (some (attrEnc ['v'] (some 'i') (some '|')))) (elT "V-x") = true ∧
+    mSimple (.attr ['t'] (some (attrEnc ['v'] none (some '|')))) (elT "V-x") = false ∧
+    mSimple (.attr ['t'] (some (attrEnc ['v'] none (some '|')))) (elT "vx") = false ∧
+    mSimple (.attr ['t'] (some (attrEnc ['v'] none none))) (elT "v") = true := by decide +kernel
+-- soundness theorem applies: a `true` with operator attributes on both sides
+example : superCompound0 [.attr ['t'] (some (attrEnc ['v'] (some 'i') (some '^')))]
+    [.type ['a'], .attr ['t'] (some (attrEnc ['v'] (some 'i') (some '^'))), .cls ['x']] = true := by decide +kernel
+example : superCompound0 [.attr ['t'] (some (attrEnc ['v'] none (some '^')))] [.attr ['t'] (some (attrEnc ['v'] none none))] = false := by
+  decide +kernel
+example : unifyCompound [.attr ['t'] (some (attrEnc ['v'] none (some '^')))] [.type ['a'], .attr ['t'] (some (attrEnc ['v'] none none))]
+    = some [.type ['a'], .attr ['t'] (some (attrEnc ['v'] none none)), .attr ['t'] (some (attrEnc ['v'] none (some '^')))] := by decide +kernel
+
 /-! ### selector-nest / selector-append are the nested-rule resolution -/
 
 /-- `selector-nest(P, C)` is exactly the selector the evaluator computes for a rule `C { … }`
@@ -285,11 +383,73 @@ example : selectorAppend [[[.compound [.type ['a']]], [.compound [.cls ['y']]]],
     allowed —, compounds that start with any simple selector and continue with non-type ones,
     names that are identifiers, attribute selectors `[n]` / `[n=ident]`) the parser reads back
     exactly what the printer wrote, with the fuel `parseSelList` itself computes.
-    PARTIAL: selector pseudos (`:not(..)` …, which need the nested induction through `normAll`),
-    `&`, quoted attribute values and modifiers are not covered — see the statement below; those
-    are still evaluated at run time on every generated selector (`sel parse` + `sel eqast`). -/
+    Round 3: attribute selectors in full (`wfAttrV`: six operators, any modifier letter, bare or
+    double-quoted value) are covered.
+    PARTIAL: selector pseudos inside a list (one level is proved at the simple-selector level:
+    `C11_sel_parse_print_depth1_partial`; the lift needs the nested fuel accounting), pseudos with an
+    opaque argument and `&` are not covered — see the statement below; those are still evaluated at
+    run time on every generated selector (`sel parse` + `sel eqast`). -/
 theorem C11_parse_print_roundtrip_partial (l : SelList) (hl : wfL l) : parseSelList (renderList l) = some l :=
   parse_render l hl
+
+/-- **attribute selectors, printer / parser** (attribute.rs:110 `from_tokens`, :164 `Display`): every
+    attribute selector — any of the operators `= ~= |= ^= $= *=`, any modifier letter, a value that is
+    an identifier (printed bare) or not (printed double-quoted; no `"`/`\` in it, the model has no
+    escapes) — is read back by the parser exactly, whatever follows the closing bracket. -/
+theorem C11_attr_parse_print (n val : Name) (md op : Option Char) (rest : List Char)
+    (hn : validName n) (hv : wfAttrVal val) (hm : ∀ m, md = some m → m.isAlpha = true)
+    (ho : ∀ o, op = some o → (attrOpOfChar o).isSome = true) :
+    pAttr ((renderS (.attr n (some (attrEnc val md op)))).drop 1 ++ rest) =
+      some (.attr n (some (attrEnc val md op)), rest) := by
+  rw [renderS_attr n val md op hv hm ho]
+  have := pAttr_app n val md op rest hn hv hm ho
+  simpa [List.append_assoc] using this
+
+example : renderS (.attr ['t'] (some (attrEnc ['v', ' ', 'w'] (some 'i') (some '~')))) = "[t~=\"v w\" i]".toList := by
+  decide +kernel
+example : parseSelList "a[t |= v-x  S], [t$='q r']".toList =
+    some [[.compound [.type ['a'], .attr ['t'] (some (attrEnc ['v', '-', 'x'] (some 'S') (some '|')))]],
+          [.compound [.attr ['t'] (some (attrEnc ['q', ' ', 'r'] none (some '$')))]]] := by decide +kernel
+
+/-- the printer of a pseudo's argument list (right-to-left normal form) writes exactly what the list
+    printer writes for grass's component vectors, and the parser's normalisation inverts that view —
+    the two facts that connect `:not(S)` as printed with `S` as parsed; all arguments, any nesting -/
+theorem C11_pseudoArg_print_norm (arg : List RComplex) :
+    renderArgs arg = renderList (arg.map RComplex.toComps) ∧ normAll (arg.map RComplex.toComps) = some arg :=
+  ⟨renderArgs_eq_renderList arg, normAll_toComps arg⟩
+
+/-- **printer / parser round trip of a selector pseudo, one level** (PARTIAL towards
+    `C11_parse_print_roundtrip_full`): `:not(…)`, `:is(…)`, `:where(…)`, `:matches(…)`, `:any(…)` whose
+    arguments are complex selectors — any length, all four combinators, comma lists — over compounds
+    without a nested selector pseudo are read back exactly (through `pList` and `normAll`), whatever
+    follows, with any fuel `> needL`.  Missing for the full statement: the fuel accounting that lifts
+    this through compounds / complexes / lists (`needX` counts no nested need), nesting depth `> 1`, `&`. -/
+theorem C11_sel_parse_print_depth1_partial (k : PName) (arg : List RComplex) (rest : List Char) (h : wfArgs arg)
+    (f : Nat) (hf : needL (arg.map RComplex.toComps) ≤ f) :
+    pSimple (f + 1) (renderS (.sel k arg) ++ rest) = some (.sel k arg, rest) :=
+  pSimple_sel_app k arg rest h f hf
+
+example : wfArgs [([.cls ['y']], []), ([.type ['c'], .attr ['t'] (some (attrEnc ['v'] none (some '^')))], [(.child, [.type ['b'], .pclass ['h']])])] := by
+  have vn : ∀ (c0 : Char) (cs : List Char), isIdentStart c0 = true → (c0 :: cs).all isIdentChar = true → validName (c0 :: cs) :=
+    fun c0 cs h1 h2 => ⟨⟨c0, cs, rfl, h1⟩, h2⟩
+  refine ⟨by simp, ?_⟩
+  intro r hr
+  simp only [List.mem_cons, List.not_mem_nil, or_false] at hr
+  rcases hr with rfl | rfl
+  · exact ⟨⟨vn _ _ (by decide) (by decide), by simp⟩, by simp⟩
+  · refine ⟨⟨vn _ _ (by decide) (by decide), ?_⟩, ?_⟩
+    · intro t ht
+      simp only [List.mem_singleton] at ht
+      subst ht
+      exact ⟨⟨vn _ _ (by decide) (by decide), ⟨['v'], none, some '^', rfl, by unfold wfAttrVal; decide, by simp, by simp [attrOpOfChar]⟩⟩, trivial⟩
+    · intro x hx
+      simp only [List.mem_singleton] at hx
+      subst hx
+      refine ⟨vn _ _ (by decide) (by decide), ?_⟩
+      intro t ht
+      simp only [List.mem_singleton] at ht
+      subst ht
+      exact ⟨⟨vn _ _ (by decide) (by decide), by decide⟩, trivial⟩
 
 /-- the full round-trip statement (open): `wf` would extend `wfL` to selector pseudos whose
     arguments are well-formed in normal form, `&` with suffix, and every attribute value the
@@ -297,7 +457,7 @@ theorem C11_parse_print_roundtrip_partial (l : SelList) (hl : wfL l) : parseSelL
 def C11_parse_print_roundtrip_full (wf : SelList → Prop) : Prop :=
   ∀ (l : SelList), wf l → parseSelList (renderList l) = some l
 
-example : wfL [[.compound [.type ['a'], .cls ['x'], .attr ['t'] (some ['v'])], .comb .child, .comb .next,
+example : wfL [[.compound [.type ['a'], .cls ['x'], .attr ['t'] (some (attrEnc ['v', ' ', 'w'] (some 'i') (some '^')))], .comb .child, .comb .next,
     .compound [.univ, .id ['i'], .pclass ['h'], .pelem ['b', 'e']]], [.compound [.placeholder ['p']]]] := by
   refine ⟨by simp, ?_⟩
   intro x hx
@@ -314,7 +474,7 @@ example : wfL [[.compound [.type ['a'], .cls ['x'], .attr ['t'] (some ['v'])], .
       simp only [List.mem_cons, List.not_mem_nil, or_false] at ht
       rcases ht with rfl | rfl
       · exact ⟨vn _ _ (by decide) (by decide), trivial⟩
-      · exact ⟨⟨vn _ _ (by decide) (by decide), vn _ _ (by decide) (by decide)⟩, trivial⟩
+      · exact ⟨⟨vn _ _ (by decide) (by decide), ⟨['v', ' ', 'w'], some 'i', some '^', rfl, by unfold wfAttrVal; decide, by simp, by simp [attrOpOfChar]⟩⟩, trivial⟩
     · refine ⟨trivial, ?_⟩
       intro t ht
       simp only [List.mem_cons, List.not_mem_nil, or_false] at ht
